@@ -433,11 +433,24 @@ def _only_images_pass(ex, st, post, result):
            'an XML service exception, an HTML error page - raises SourceError instead of being handed on as picture data')
 
 
-contract(CW + 'WMSClient._check_resp', props=['C17'],
+def _error_text_is_fixed(ex, st, post, exc):
+    """the text of a SourceError ends up in the XML error documents of every service (C18): it must not carry the request URL
+    (credentials in the query string; the binary and map file path of a mapserver:// source)"""
+    import z3
+    from pyvc.values import VStr
+    a = list(exc.args or ())
+    ok = len(a) == 1 and isinstance(a[0], VStr) and a[0].conc() is not None
+    yield ('source_error_text_is_a_constant', z3.BoolVal(bool(ok)),
+           'the message of the SourceError is a fixed text: nothing of the upstream URL, of the upstream answer or of a server '
+           'path is copied into it (those go to the log)')
+
+
+contract(CW + 'WMSClient._check_resp', props=['C17', 'C18'],
          types=dict(resp='opaque', url='opaque'), returns='none', default_callee='opaque',
          opaque_spec={'get': {'pure': True}, 'startswith': {'returns': 'bool', 'pure': True}, 'read': {'pure': True}, 'decode': {'pure': True},
                       'format': {'pure': True}},
          raises={'SourceError': True},
+         raises_ensures={'SourceError': [_error_text_is_fixed]},
          trace=[_only_images_pass])
 
 
